@@ -171,6 +171,7 @@ var reviewedMapRanges = map[string]string{
 	"datarecording.sqliteReader.ListTables":              "reader side, not simulation",
 	"internal/codec.Registry.Tags":                       "audit helper; result is sorted by its caller",
 	"tracing/tracingtest.LeakRecorder.OpenTasks":         "test helper",
+	"sourcefs.OpenTraceSource":                           "collects the root names; NewSource copies and sorts them (sort.Strings) before they are used",
 }
 
 // nondetCall reports calls that introduce run-to-run variation.
